@@ -223,7 +223,7 @@ def expand_procedural(spec):
 
 
 def generate(prop, rng, tier):
-    if rng.random() < 0.004:
+    if rng.random() < 0.015:
         # sizes around powers of two (block-wise writes, 16-bit counters): one big mesh, a short history
         n = rng.choice([65535, 65536, 65537, 65538, 131073])
         ops = [{"op": "add_geometry", "geom": "big", "mesh": "m0"},
